@@ -53,3 +53,19 @@ Theorem c07_order_invariant_after_every_delivery :
     Effects.WInv w -> HL w -> OInv w -> OInv (snd (fst (deliver_one beh it w))).
 Proof. exact deliver_one_O. Qed.
 Print Assumptions c07_order_invariant_after_every_delivery.
+
+(* "each eligible handler runs exactly once per delivery unless an earlier handler took ownership of the event, in
+   which case none of the later ones run": the handler bodies entered during one delivery - read off the invocation
+   log, the same log the correspondence compares with the implementation - are a PREFIX of the listener list, in list
+   order, and the whole list when no handler took the event and none panicked.  With the listener list free of
+   repetitions (c08: delivered_to_exact) that is "exactly once". *)
+Require Import EV.SlotMap EV.RunOnce.
+Theorem c07_handlers_invoked_are_a_prefix_of_the_listener_list :
+  forall (beh : hinfo -> logent -> N -> script) (hl : list key) (w : world) (it : qitem) (tag : N) (loc : eloc) (sent : list qitem),
+    (forall hk, In hk hl -> exists h, sm_get hk (w_hs w) = Some h /\ h_key h = hk) ->
+    let r := run_handlers beh hl w it tag loc sent in
+    let w' := fst (fst (fst (fst r))) in
+    exists n new, klog w' = klog w ++ new /\ map lg_handler new = firstn n hl /\ (n <= length hl)%nat /\
+                  (snd r = None -> snd (fst r) = false -> n = length hl).
+Proof. exact run_handlers_prefix. Qed.
+Print Assumptions c07_handlers_invoked_are_a_prefix_of_the_listener_list.
